@@ -19,3 +19,37 @@ func TestC04TwoLiteralSourcesShareOneDword(t *testing.T) {
 		t.Errorf("literals %#x %#x", inst.Src0.LiteralConstant, inst.Src1.LiteralConstant)
 	}
 }
+
+func TestC04SetregImm32IsEightBytes(t *testing.T) {
+	// s_setreg_imm32_b32 hwreg(...), 0xdeadbeef ; s_endpgm
+	buf := []byte{0x01, 0x00, 0x00, 0xba, 0xef, 0xbe, 0xad, 0xde, 0x00, 0x00, 0x81, 0xbf}
+	inst, err := NewDisassembler().Decode(buf)
+	if err != nil {
+		t.Fatal(err)
+	}
+	if inst.InstName != "s_setreg_imm32_b32" || inst.ByteSize != 8 {
+		t.Errorf("%s decoded with ByteSize %d; the instruction carries a 32-bit literal and is 8 bytes long", inst.InstName, inst.ByteSize)
+	}
+}
+
+func TestC04DSGdsFlagComesFromBit16(t *testing.T) {
+	// ds_read_b32 v0, v0 offset:16   (offset0 = 0x10, gds = 0)
+	lo := uint32(0xD8000000) | 54<<17 | 0x10
+	buf := []byte{byte(lo), byte(lo >> 8), byte(lo >> 16), byte(lo >> 24), 0, 0, 0, 0}
+	inst, err := NewDisassembler().Decode(buf)
+	if err != nil {
+		t.Fatal(err)
+	}
+	if inst.GDS {
+		t.Errorf("%s offset:16 decoded with the GDS flag set although bit 16 of the encoding is clear", inst.InstName)
+	}
+}
+
+func TestC04Ttmp11IsDecodable(t *testing.T) {
+	// s_mov_b32 ttmp11, s0
+	w := uint32(0xBE800000) | 123<<16
+	buf := []byte{byte(w), byte(w >> 8), byte(w >> 16), byte(w >> 24)}
+	if _, err := NewDisassembler().Decode(buf); err != nil {
+		t.Errorf("s_mov_b32 ttmp11, s0 is reported as undecodable: %v", err)
+	}
+}
